@@ -57,9 +57,21 @@ CLAIMS['C19'] = dict(category='proof', ref='8 C19',
          "and on the receiver's timed state machine (deadline re-armed at every read) a client whose packets arrive less than K apart is "
          "never timed out whatever the read delays (C19_active_never_dropped) while a silent one is timed out at most 1.5K after the "
          "pending read was armed (C19_silent_dropped); PINGREQ is answered by exactly one PINGRESP (C19_pingreq_pingresp); the source "
-         "still has the shape the model assumes (C19_source_shape, regenerated). Tied to the real broker by timed scenarios (K=1,2 s: "
-         "silent from start, pinging, publishing, interval above the deadline) with a will witness. PARTIAL: real time, timers and "
-         "scheduler latency are trusted, not modelled.")
+         "still has the shape the model assumes (C19_source_shape, regenerated). On the connection life-cycle model of C16 (imported): the "
+         "keep-alive event is exactly a failing pending read (C19_expiry_is_a_read_error), and in EVERY reachable state in which the read "
+         "deadline has fired - any buffer contents, in particular own outgoing ring full with the connection's own processor parked in it "
+         "behind a client that has stopped reading - fair round-robin ends within rank(s) rounds in the complete teardown: goroutines "
+         "exited, socket closed, stop() effects complete, the will published if its flag was set and no DISCONNECT was pending "
+         "(C19_timeout_tears_down, citing C16_read_failure_completes / C16_teardown_completes / C16_self_held_not_ended; repair b77088f, "
+         "finding F7 - before it such a connection survived the time-out: C16_old_receiver_wedges). FULL STATEMENT FALSE of the code "
+         "(open finding F8): the deadline is armed per socket read and a read is issued only when a read block of ring space is free; a "
+         "client that stops reading and keeps sending until its writes block fills both rings, the receiver waits for space, nothing is "
+         "armed, silence changes nothing (C19_silence_counterexample: closed reachable state, invariant under every schedule of thread "
+         "steps and deadline attempts). Tied to the real broker by timed scenarios (K=1,2 s: "
+         "silent from start, pinging, publishing, interval above the deadline, silent subscriber, and a subject that has stopped READING: "
+         "deafsub, deafecho = F7 witness, deafflood = F8 witness; the deaf kinds' model stream is computed on the life-cycle model) with a "
+         "will witness. PARTIAL: real time, timers and scheduler latency are trusted, not modelled; C19_timeout_tears_down is under weak "
+         "fairness with socket semantics as parameters (a Close makes a blocked Write fail).")
 
 _CLIENT_TEXT = ("Sequential Lean model of the client role (Connect, publish/subscribe/unsubscribe/ping with their completion wrappers, "
                 "processIncoming as a client) tied to the real service.Client by differential runs against a scripted TCP peer (PINGREQ "
@@ -153,29 +165,38 @@ CLAIMS['C17'] = dict(category='proof', ref='5 Core F, 8 C17',
          "length mismatch (A2) belongs to C03.")
 
 CLAIMS['C16'] = dict(category='proof', ref='5 Core F, 8 C16',
-    text="Lean 4 theorems (17), for ALL initial buffer states, traffic, schedules of thread steps and interleaved environment events (peer closes / stops "
+    text="Lean 4 theorems (21), for ALL initial buffer states, traffic, schedules of thread steps and interleaved environment events (peer closes / stops "
          "reading / keep-alive fires / the connection a delivery is addressed to blocks / Server.Close), over a small-step model of one connection's "
          "life-cycle at ring-call granularity (receiver, processor, sender, any number of stop() callers and of external writers; Model/Lifecycle.lean): "
          "invariants in every reachable state (C16_invariant); at most one stop() call past the CAS, effects unsubscribe / will-if-flag / delete-if-clean "
          "each at most once, in that order, only after the three goroutines have exited, complete at the end (C16_stop_once); an explicit natural-number "
          "rank strictly decreases with every thread step and is never raised by the environment, so no schedule takes more than rank(s) thread steps and "
          "fair round-robin reaches quiescence within rank(s) rounds (C16_teardown_bounded); from any reachable state in which the connection has ended "
-         "round-robin ends in the complete teardown (goroutines exited, stop returned, effects complete) unless the processor is inside a delivery held "
-         "up by a still-open connection that has stopped reading - the property's exemption, predicate HeldUp, shown necessary by C16_exemption_needed - "
-         "or the state is the F3 wedge (C16_no_deadlock_partial, C16_teardown_completes); once stop() has passed its CAS and no foreign delivery is blocked "
+         "round-robin ends in the complete teardown (goroutines exited, stop returned, effects complete) unless the processor is inside a delivery into "
+         "ANOTHER connection that is still open, has stopped reading and is full - all that is left of the property's exemption (HeldUp = HeldByThird, "
+         "C16_exemption_is_third_party; shown necessary by C16_exemption_needed) - or the state is the F3 wedge (C16_no_deadlock_partial, "
+         "C16_teardown_completes). The former second exemption - a connection whose processor is parked in its OWN outgoing ring behind its own "
+         "non-reading client - is REMOVED by the repair b77088f (finding F7: the receiver closes the socket when its read has failed): in a state in "
+         "which nothing can run such a connection has not ended (C16_self_held_not_ended), and once the receiver's read has failed - keep-alive deadline, "
+         "peer close or reset, anything that puts the receiver past its loop - round-robin ends in the complete teardown or HeldByThird, neither the "
+         "self-held state nor the F3 wedge can intervene (C16_read_failure_completes); with the receiver before the repair the model wedges in exactly "
+         "that state (closed counterexample C16_old_receiver_wedges: ended, quiescent, nothing torn down, no exemption applies). Once stop() has passed its CAS and no foreign delivery is blocked "
          "the teardown ALWAYS completes, and Server.Close (all outgoing rings closed first, then stop) returns (C16_stop_completes, C16_server_close); "
          "stop() never clears the ring pointers, no foreign writer dereferences nil, a delivery to a closed ring fails at once (C16_no_foreign_panic, "
          "C16_late_delivery_fails_fast). FULL STATEMENT FALSE of the code: a packet longer than ring size - 8 KiB arriving in pieces parks receiver and "
          "processor for good (C16_no_deadlock_counterexample - closed reachable state; C16_chunk_wedge_char; open finding F3, witness replayed on every "
          "run). Closed counterexamples: the model wedges with the ring before 584775d (D2), a writer panics with the stop() before e79396e (F1), stop() "
-         "wedges when Wait precedes the Close calls, the sequential Server.Close before 08d14fb hangs (F6, found and repaired here). The order of stop(), its "
-         "guards, the deferred recovers, Done-then-stop, the processor loop, writeMessage's lock structure, Server.Close and the ring's lock structure are "
-         "regenerated from the source and tied by decide (C16_source_shape). Tied to the real broker by fault sequences (6 buffer conditions x 6 causes x "
+         "wedges when Wait precedes the Close calls, the sequential Server.Close before 08d14fb hangs (F6, found and repaired here), the receiver before "
+         "b77088f leaves a self-held connection standing after a keep-alive expiry (F7). The order of stop(), its "
+         "guards, the deferred recovers, Done-then-stop, the processor loop, writeMessage's lock structure, Server.Close, the receiver's conn.Close-then-return "
+         "after a failed ReadFrom and the ring's lock structure are "
+         "regenerated from the source and tied by decide (C16_source_shape). Tied to the real broker by fault sequences (7 buffer conditions x 6 causes x "
          "order of ends, raw clients that stop reading; model stream = outcome of the model under fair round-robin, line equality). PARTIAL: bounded "
          "time = bounded number of own steps under weak fairness of the Go scheduler (trusted); socket semantics are parameters; the rings are abstracted "
-         "to call level - that contract is C15's, cited, not re-derived; one connection is modelled, the broker around it is environment; a connection "
-         "whose processor is parked in its OWN outgoing ring behind its own non-reading client is exempt by the letter of the property and is not "
-         "rescued by keep-alive (NOTES-life.md).",
+         "to call level - that contract is C15's, cited, not re-derived; one connection is modelled, the broker around it is environment. OPEN (finding F8, "
+         "with C19): 'ended' presupposes that the end can be noticed - a connection whose client has stopped reading and kept sending until BOTH rings are "
+         "full has its receiver waiting for ring space, no read pending, no deadline armed; keep-alive never fires on it (scenario selffull keepalive: "
+         "token held-up-by-self, accepted only inside this known-finding class; NOTES-f7.md).",
     technique='machine-checked proof in Lean 4 (invariants + termination measure of a concurrent small-step program, for all schedules) + fault-sequence correspondence on the real broker')
 
 CLAIMS['C14'] = dict(category='proof', ref='5 Core D, 8 C14',
